@@ -145,6 +145,36 @@ func TestC19(t *testing.T) {
 		} else {
 			B = GenReplica(t, bb, opt, targets, "B-")
 		}
+		bothOverloaded := false
+		if mode == "differential" && !slowA && !manyStaleA && rapid.IntRange(0, 7).Draw(t, "bothOverloaded") == 0 {
+			// both replicas are in the same trouble at the same time: a shard over the process limit that must hand one
+			// (and only one: the other copy is not settled yet) of its two targets over to an empty shard.  Each replica
+			// is relieved as if it were alone
+			bothOverloaded = true
+			P := opt.MaxProc
+			if P > 1000000 || P < 100 {
+				P = 1000
+			}
+			opt.MaxProc, opt.MaxHead = P, 0
+			// shard 0 holds T1 (0.5 P) and T2 (0.7 P), both settled: 1.2 P, over the limit.  Shard 1 holds T3 (0.35 P): T1 fits
+			// there, T2 does not - whichever the map hands out first, T1 is the one that moves
+			t1, t2, t3 := P/2, P*7/10, P*35/100
+			targets = []TargetSpec{{Hash: 1, Job: "j0", Explore: "good", Series: t1, Total: t1}, {Hash: 2, Job: "j0", Explore: "good", Series: t2, Total: t2}, {Hash: 3, Job: "j0", Explore: "good", Series: t3, Total: t3}}
+			ok := ShardSpec{Ready: true, StatusOK: true, Runtime1OK: true, HashEqual: true, Push: "ok", Runtime2OK: true, Idle: "fresh"}
+			times := func(l string) uint64 { return uint64(rapid.IntRange(3, 9).Draw(t, l)) }
+			loaded, other := ok, ok
+			loaded.Held = []Held{{Hash: 1, Health: "up", Times: times("t1Times"), Series: t1, Total: t1}, {Hash: 2, Health: "up", Times: times("t2Times"), Series: t2, Total: t2}}
+			other.Held = []Held{{Hash: 3, Health: "up", Times: times("t3Times"), Series: t3, Total: t3}}
+			B = ReplicaSpec{Shards: []ShardSpec{loaded, other}}
+			A = ReplicaSpec{Shards: []ShardSpec{loaded, other}}
+			if rapid.Bool().Draw(t, "aAlreadyMoving") {
+				// replica A began the same move a cycle earlier
+				a0, a1 := loaded, other
+				a0.Held = []Held{{Hash: 1, State: "in_transfer", Health: "up", Times: 1, Series: t1, Total: t1}, loaded.Held[1]}
+				a1.Held = []Held{other.Held[0], {Hash: 1, Health: "up", Times: 1, Series: t1, Total: t1}}
+				A = ReplicaSpec{Shards: []ShardSpec{a0, a1}}
+			}
+		}
 		seed := int64(rapid.IntRange(1, 1<<30).Draw(t, "randSeed"))
 		mk := func(reps ...ReplicaSpec) *Scenario {
 			sc := &Scenario{Opt: opt, Targets: targets, Replicas: reps, RandSeed: seed}
@@ -186,6 +216,10 @@ func TestC19(t *testing.T) {
 		}
 		if allUnready {
 			cls = append(cls, "A-all-unready")
+		}
+		if bothOverloaded {
+			nt = true
+			cls = append(cls, "both-replicas-must-relieve-a-shard-of-the-same-target")
 		}
 		if manyStaleA {
 			cls = append(cls, "A-has-30-to-40-shards-with-an-old-configuration")
